@@ -7,10 +7,12 @@ package main
 
 import (
 	"bytes"
+	"crypto/sha256"
 	"fmt"
 	"github.com/WICG/webpackage/go/zz_verif/rmice"
 	"io"
 	"log"
+	"math"
 	"net/http"
 	"sort"
 	"strings"
@@ -216,6 +218,53 @@ func run(r *mon.Run) {
 	ids := []*gen.Identity{gen.NewIdentity(g0, gen.Curves[0], "example.com", 2), gen.NewIdentity(g0, gen.Curves[1], "example.com", 1)}
 	foreign := gen.NewIdentity(g0, gen.Curves[0], "evil.example", 1)
 	sameSubject := gen.NewIdentity(g0, gen.Curves[0], "example.com", 1)
+
+	// signed windows at the edges of the 64-bit range (the library's signer cannot express them; the reference signs
+	// them): whatever else decides the verdict, a success means date <= t <= expires for the numbers that were signed
+	if r.Shard == 0 {
+		const now = int64(1600000000)
+		maxI, minI := int64(math.MaxInt64), int64(math.MinInt64)
+		type win struct{ date, expires, at int64 }
+		wins := []win{{now - 10, now + 3590, now}, {now + 5, now - 5, now}, {maxI, now + 10, now}, {maxI - 1, now + 3600, now}, {maxI - 62135596800 + 1, now + 10, now}, {maxI - 62135596800, now + 10, now},
+			{maxI - 31000000000, now + 604000, now}, {maxI - 1<<40, now + 10, now}, {1 << 62, now + 10, now}, {now - 10, minI, now}, {maxI, minI, now}, {maxI, maxI, now}, {minI, minI, now}, {minI, now + 10, now},
+			{now + 10, now + 20, now}, {now - 20, now - 10, now}, {-(1 << 62), now + 10, now}, {now - 10, now + 10, -62135596800}, {now - 10, now + 10, maxI - 62135596800}}
+		for vi, ver := range gen.SXGVersions {
+			for wi, w := range wins {
+				g := r.Rand("edge-window", vi*100+wi)
+				spec := gen.DefaultSXG(g, ver, ids[0], "example.com", 30, 16)
+				spec.Date, spec.Expires = time.Unix(now-10, 0), time.Unix(now+3590, 0)
+				e, _, err := spec.Build()
+				if err != nil {
+					r.HarnessFail("edge windows: cannot build the base exchange: %v", err)
+					break
+				}
+				ref := &rsxg.Exchange{Version: string(ver), URL: e.RequestURI, Method: e.RequestMethod, ReqHeaders: rsxg.Norm(e.RequestHeaders), Status: e.ResponseStatus, RespHeaders: rsxg.Norm(e.ResponseHeaders), Payload: e.Payload}
+				certSha := sha256.Sum256(ids[0].Certs[0].Raw)
+				sig, serr := rsxg.Sign(g, ids[0].Key, rsxg.SignedMessage(ref, certSha[:], spec.ValidityURL, w.date, w.expires))
+				if serr != nil {
+					r.HarnessFail("edge windows: reference signer: %v", serr)
+					break
+				}
+				e.SignatureHeaderValue = rsxg.SignatureHeader("label", sig, certSha[:], ids[0].CertURL, spec.ValidityURL, rsxg.Integrity(string(ver)), w.date, w.expires)
+				var ok bool
+				p, pv := r.Call(fmt.Sprintf("edge-window/%s/%d", ver, wi), nil, func() { _, ok = e.Verify(time.Unix(w.at, 0), ids[0].Fetcher(), log.New(io.Discard, "", 0)) })
+				inside := w.date <= w.at && w.at <= w.expires
+				switch {
+				case p:
+					r.Eval("edge-window:PANIC")
+					r.Violation(fmt.Sprintf("sx1:edge-window:%s:%d:panic", ver, wi), fmt.Sprintf("Verify panicked on a %s exchange signed for [%d, %d] at t=%d: %v", ver, w.date, w.expires, w.at, pv), nil)
+				case ok && !inside:
+					r.Eval("edge-window:VERIFIED-OUTSIDE-THE-WINDOW")
+					r.Violation(fmt.Sprintf("sx1:edge-window:%s:%d", ver, wi), fmt.Sprintf("verification of a %s exchange succeeded at t=%d, which is outside the signed window [date=%d, expires=%d]", ver, w.at, w.date, w.expires), map[string]any{"date": w.date, "expires": w.expires, "t": w.at})
+				case ok:
+					r.Eval("edge-window:verified-inside")
+				default:
+					r.Eval("edge-window:refused")
+				}
+				r.Distinct(fmt.Sprintf("edge-window|%s|%d|%v", ver, wi, ok))
+			}
+		}
+	}
 
 	type shape struct{ rs, plen int }
 	var shapes []shape
